@@ -38,6 +38,10 @@ type efFunc struct {
 	recv   *types.Var
 	g      *cfg.CFG
 	errRes []*types.Var // named error results
+	encl   *efFunc      // the function a literal is written in
+	// deferred: the literal is the operand of a defer statement of encl, so an
+	// assignment to encl's named error result still changes what encl returns
+	deferred bool
 }
 
 type errFlow struct {
@@ -118,24 +122,33 @@ func newErrFlow(c *Ctx, sentinelPaths []string, exempt map[string]string) *errFl
 			top.recv = top.sig.Recv()
 			ef.funcs = append(ef.funcs, top)
 			n := 0
-			var walk func(parent string, node ast.Node)
-			walk = func(parent string, node ast.Node) {
+			deferredLit := map[*ast.FuncLit]bool{}
+			ast.Inspect(fd.Body, func(x ast.Node) bool {
+				if ds, ok := x.(*ast.DeferStmt); ok {
+					if fl, ok := ast.Unparen(ds.Call.Fun).(*ast.FuncLit); ok {
+						deferredLit[fl] = true
+					}
+				}
+				return true
+			})
+			var walk func(parent *efFunc, node ast.Node)
+			walk = func(parent *efFunc, node ast.Node) {
 				k := 0
 				ast.Inspect(node, func(x ast.Node) bool {
 					if fl, ok := x.(*ast.FuncLit); ok && x != node {
 						k++
 						n++
-						name := fmt.Sprintf("%s$%d", parent, k)
+						name := fmt.Sprintf("%s$%d", parent.name, k)
 						sig, _ := c.Info.TypeOf(fl).(*types.Signature)
-						f := &efFunc{name: name, decl: fd, lit: fl, body: fl.Body, ftype: fl.Type, sig: sig, recv: top.recv}
+						f := &efFunc{name: name, decl: fd, lit: fl, body: fl.Body, ftype: fl.Type, sig: sig, recv: top.recv, encl: parent, deferred: deferredLit[fl]}
 						ef.funcs = append(ef.funcs, f)
-						walk(name, fl.Body)
+						walk(f, fl.Body)
 						return false
 					}
 					return true
 				})
 			}
-			walk(top.name, fd.Body)
+			walk(top, fd.Body)
 		}
 	}
 	for _, f := range ef.funcs {
@@ -147,6 +160,13 @@ func newErrFlow(c *Ctx, sentinelPaths []string, exempt map[string]string) *errFl
 					f.errRes = append(f.errRes, res.At(i))
 				}
 			}
+		}
+	}
+	// a deferred literal may hand an error to its function's caller through the
+	// function's named error result (funcs lists a function before its literals)
+	for _, f := range ef.funcs {
+		if f.deferred && f.encl != nil {
+			f.errRes = append(f.errRes, f.encl.errRes...)
 		}
 	}
 	ef.computeInfallible()
